@@ -328,5 +328,5 @@ func runCase(t *rapid.T) {
 
 func TestBackendsAreMaps(t *testing.T) {
 	flag.Set("rapid.steps", fmt.Sprint(evid.Pick(25, 60)))
-	evid.Check(t, 2500, 12000, runCase)
+	evid.Check(t, 2500, 8000, runCase)
 }
